@@ -1,6 +1,7 @@
 package http
 
 import (
+	"bytes"
 	"context"
 	"encoding/json"
 	"fmt"
@@ -76,6 +77,9 @@ func HttpRequest(client *http.Client, req *http.Request, response any) error {
 		return &oidcErr
 	}
 
+	if bytes.Equal(bytes.TrimSpace(body), []byte("null")) {
+		return fmt.Errorf("failed to unmarshal response: unexpected %s", body)
+	}
 	err = json.Unmarshal(body, response)
 	if err != nil {
 		return fmt.Errorf("failed to unmarshal response: %v %s", err, body)
